@@ -432,6 +432,7 @@ structure HdrOnly (s s' : State) : Prop where
   sect : s'.sect = s.sect
   edns : s'.edns.isSome = s.edns.isSome
   tsig : s'.tsig.isSome = s.tsig.isSome
+  gl : s'.gLabels = s.gLabels
 
 theorem lay_hdrOnly {s s' : State} {b : Body} (h : Lay s b) (k : HdrOnly s s') : Lay s' b :=
   lay_congr h (fun i hi _ => k.pre i hi) k.mode k.cursor k.rrStart k.qd k.an k.ns k.ar k.sect k.edns k.tsig
@@ -470,7 +471,7 @@ theorem hdrOnly_setRcode (v : Nat) (s : State) : HdrOnly s (setRcode v s).2 := b
       | some e =>
         simp only [he]
         exact ⟨h1.pre, h1.mode, h1.cursor, h1.rrStart, h1.qd, h1.an, h1.ns, h1.ar, h1.sect,
-          by rw [← h1.edns, he]; rfl, h1.tsig⟩
+          by rw [← h1.edns, he]; rfl, h1.tsig, h1.gl⟩
     | err e => exact h1
     | panic => exact h1
 
@@ -495,7 +496,7 @@ theorem hdrOnly_setExtendedRcode (v : Nat) (s : State) : HdrOnly s (setExtendedR
         | ok u =>
           simp only [M.modify_apply]
           exact ⟨h1.pre, h1.mode, h1.cursor, h1.rrStart, h1.qd, h1.an, h1.ns, h1.ar, h1.sect,
-            by rw [he]; rfl, h1.tsig⟩
+            by rw [he]; rfl, h1.tsig, h1.gl⟩
         | err e => exact h1
         | panic => exact h1
 
